@@ -118,7 +118,7 @@ def theorems_of(prop_file: str) -> list:
         if m and ns and ns[-1] == m.group(1):
             ns.pop()
             continue
-        m = re.match(r"\s*(?:private\s+)?theorem\s+(\S+)", line)
+        m = re.match(r"\s*theorem\s+(\S+)", line)   # private helpers are covered through the public theorems that use them
         if m:
             names.append(".".join(ns + [m.group(1)]))
     return names
@@ -480,3 +480,17 @@ def call_with_timeout(fn, timeout: float):
     th.start()
     th.join(timeout)
     return box.get("v", ("timeout", None))
+
+
+class OsProxy:
+    """Stands in for the `os` module inside executorlib/standalone/interactive/spawner.py while launches are
+    recorded instead of executed: `makedirs` (fix 24eb13b creates the working directory) is recorded, not done."""
+
+    def __init__(self):
+        self.made = []
+
+    def __getattr__(self, name):
+        return getattr(os, name)
+
+    def makedirs(self, path, *a, **kw):
+        self.made.append(path)
